@@ -310,6 +310,7 @@ def _keyfn_of_lambda(text):
     return None
 
 
+_STDLIB_ROOTS = ("os", "re", "json", "six", "hashlib", "codecs", "itertools", "operator", "collections", "warnings", "sys")
 _CONSUMERS = ("sorted", "set", "frozenset", "list", "tuple", "any", "all", "sum", "min", "max", "dict")
 
 
@@ -326,6 +327,16 @@ def canon(t):
             return _fmt_format(x[1][1][1], x[2], x[3])
         if k == "fstr":
             return fmt(*x[1])
+        if k == "call" and x[1] in (("global", "os.fspath"), ("global", "six.text_type"), ("global", "os.fsdecode")) and len(x[2]) == 1 and not x[3]:
+            return x[2][0]       # the string form of a path: the identity on the strings the properties speak about
+        if k == "cmp" and len(x[1]) == 1 and x[1][0] in ("is", "is not") and ("const", None) in x[2]:
+            other = [y for y in x[2] if y != ("const", None)]
+            if other and other[0][0] == "global" and "." in other[0][1] and other[0][1].split(".")[0] in _STDLIB_ROOTS:
+                return ("const", x[1][0] == "is not")     # a standard-library attribute is not None
+        if k in ("ifexp", "gate") and x[1][0] == "call" and x[1][1] == ("global", "hasattr") and len(x[1][2]) == 2 \
+                and x[1][2][1] == ("const", "__fspath__") and x[3] == x[1][2][0] \
+                and x[2] == ("call", ("attr", x[3], "__fspath__"), (), ()):
+            return x[3]          # p.__fspath__() if hasattr(p, "__fspath__") else p : the string form of a path
         if k in ("ifexp", "gate") and x[1][0] == "const":
             return x[2] if x[1][1] else x[3]       # a condition that is a literal (an inlined helper's flag parameter)
         if k == "unary" and x[1] == "not" and x[2][0] == "const" and isinstance(x[2][1], bool):
@@ -818,6 +829,10 @@ class Extractor(object):
             t = ("call", func, tuple(args), kws)
             if func == ("global", "getattr") and len(args) == 2 and not kws and args[1][0] == "const" and isinstance(args[1][1], str):
                 return ("attr", args[0], args[1][1])      # getattr(x, "name") is x.name
+            if func == ("global", "getattr") and len(args) == 3 and not kws and args[0][0] == "global" and args[1][0] == "const" \
+                    and isinstance(args[1][1], str) and args[0][1].split(".")[0] in _STDLIB_ROOTS:
+                # getattr(os, "fspath", None): a standard-library attribute that exists on every supported interpreter
+                return ("global", args[0][1] + "." + args[1][1])
             if func == ("global", "setattr") and len(args) == 3 and not kws and args[1][0] == "const" and isinstance(args[1][1], str) \
                     and not bound:
                 # setattr(x, "name", v) is x.name = v
